@@ -75,6 +75,9 @@ def norm_cond(o, pol=True):
         return norm_cond(o[2], not pol)
     if k == "binop" and o[1] in NEG:
         return _cmp(o[1], o[2], o[3], pol)
+    if k == "call" and o[1] in ("anyhow::__private::not", "std::ops::Not::not") and len(o[2]) == 1:
+        # `ensure!(cond, ..)` tests `not(cond)`
+        return norm_cond(o[2][0], not pol)
     if k == "call":
         name = o[1].rsplit("::", 1)[-1]
         if name in CMP_TRAIT_NAMES and len(o[2]) == 2 and ("PartialEq" in o[1] or "PartialOrd" in o[1] or "cmp::" in o[1]):
@@ -270,9 +273,10 @@ def value_cases(prov, fn, l, _depth=0, _outer=()):
     desugared combinator or a block expression leaves behind); the conditions are those dominating the defining site and
     every move on the way"""
     out = []
+    live = cfg_of(fn).live_nodes()
     for kind, db, di, x in prov.defs(fn).get(l, []):
-        if kind == "setdiscr" or x["dst"]["p"]:
-            continue
+        if kind == "setdiscr" or x["dst"]["p"] or db not in live:
+            continue        # (blocks only reachable by unwinding are not part of the graph)
         here = tuple(dominating_conditions(prov, fn, db))
         if kind == "assign" and x["rv"]["k"] == "use" and x["rv"]["op"].get("k") in ("copy", "move") and not x["rv"]["op"]["place"]["p"] and _depth < 6:
             m = x["rv"]["op"]["place"]["l"]
@@ -557,3 +561,42 @@ def returned_value(facts, prov, fn, depth=2):
             return args[x[1] - 1]
         return None
     return map_origin(returned_value(facts, prov, g, depth - 1), sub)
+
+
+def record_update(origin, is_loaded):
+    """how a stored struct differs from the loaded one it is made from, whatever the syntax: `rec.f = v; save(rec)` or
+    `save(Struct { f: v, ..rec })` (or every field spelled out).  is_loaded(origin) recognises the loaded record.
+    Returns None when `origin` is not derived from a loaded record, else {field name: new value origin}; fields that are
+    only handed out as `&mut` to a call are reported under the key ("&mut", field)."""
+    o = origin
+    while o[0] == "vp":
+        o = o[2]
+    if o[0] == "upd":
+        base = o
+        changed = {}
+        while base[0] == "upd":
+            for path, v in base[2]:
+                if path and path[0] == "&mut":
+                    changed[("&mut",) + tuple(path[1:2])] = v
+                elif path:
+                    changed.setdefault(path[0], v)
+            base = base[1]
+            while base[0] == "vp":
+                base = base[2]
+        return changed if is_loaded(base) else None
+    if o[0] == "agg" and o[2]:
+        changed = {}
+        kept = 0
+        for fname, v in o[2]:
+            pv = peel(v)
+            if pv[0] == "field" and pv[2] == fname and is_loaded(peel(pv[1])):
+                kept += 1
+            elif pv[0] == "upd" and peel(pv[1])[0] == "field" and peel(pv[1])[2] == fname and is_loaded(peel(peel(pv[1])[1])) and all(p and p[0] == "&mut" for p, _ in pv[2]):
+                kept += 1
+                changed[("&mut", fname)] = pv
+            else:
+                changed[fname] = v
+        return changed if kept else None
+    if is_loaded(o):
+        return {}
+    return None
